@@ -10,7 +10,7 @@ def _gens(quick_num, thorough_num):
         out = []
         for i, x in enumerate("ABCD"):
             out.append(dict(mode="sim", spec="NodeGen.tla", cfg="NodeGenSim%s.cfg" % x, depth=depth, num=n,
-                            max=(45 if tier == "quick" else 700), salt=i, name="walks" + x, timeout=900))
+                            max=(25 if tier == "quick" else 500), salt=i, name="walks" + x, timeout=900))
         return out
     return dict(quick=g("quick"), thorough=g("thorough"))
 
@@ -92,7 +92,7 @@ _COMMON = dict(
     design=[dict(spec="MCNodeQ.tla", cfg="MCNodeR.cfg", workers=8, timeout=900, coverage=False),
             dict(spec="MCNodeQ.tla", cfg="MCNodeQ.cfg", workers=8, timeout=1500, thorough_only=True, coverage=False),
             dict(spec="MCNode.tla", cfg="MCNode.cfg", workers=12, timeout=3000, thorough_only=True, coverage=False)],
-    gen=_gens(14, 80),
+    gen=_gens(10, 60),
     driver_timeout=2400,
     exhaustive=dict(quick=False, thorough=False),
     technique="TLA+ node-storage model (Node.tla) model-checked by TLC; TLC random walks over the model generate API-level "
